@@ -285,4 +285,29 @@ def pyramid (size : Nat) (b e x1 y1 x2 y2 : Int) : List Int :=
 def flat (size : Nat) (b : Int) : Map :=
   { size := size, tiles := resetIndices (List.replicate (size * size) { Tile.fresh with elevation := b }) }
 
+/-! ### histories -/
+
+/-- the mutating operations of the manager -/
+inductive Op
+  | setSize (n : Nat)
+  | setTerrain (ts : List Tile)
+  | setElevation (e x1 y1 : Int) (x2 y2 : Option Int)
+
+/-- one step of a history. An operation that raises leaves the manager as it was: the `terrain` setter validates
+before it assigns, `set_elevation` selects all its tiles (the only step that can raise on a consistent map) before
+it assigns, and on a consistent map the `map_size` setter never raises (`Aoe.Props.C11.resize_succeeds`). -/
+def applyOp (fixSingle : Bool) (m : Map) : Op → Map
+  | .setSize n => match setSize m n with
+      | .ok m' => m'
+      | .error _ => m
+  | .setTerrain ts => match setTerrain m ts with
+      | .ok m' => m'
+      | .error _ => m
+  | .setElevation e x1 y1 x2 y2 => match setElevation fixSingle (elevFuel m) m e x1 y1 x2 y2 with
+      | .ok m' => m'
+      | .error _ => m
+
+/-- a history of operations -/
+def run (fixSingle : Bool) (m : Map) (ops : List Op) : Map := ops.foldl (applyOp fixSingle) m
+
 end Aoe.Map
